@@ -56,10 +56,16 @@ type builder struct {
 	track  bool              // record kind/shape of every leaf (else only of the overridden one)
 	rlp    bool              // RLP domain: unsigned integers, non-nil big.Int, RLP boundary lengths
 	curTag reflect.StructTag // tag of the struct field being built
+
+	// inside an element of a long slice (see sliceLens): index of the element
+	// and nesting depth below it; pointer / interface leaves are nil at a
+	// position-dependent pattern (nilSlot)
+	longIdx   int
+	longDepth int // 0: not inside a long slice; 1: the element itself; 2+: below it
 }
 
 func newBuilder(base int, fixed map[string]int, ovPath string, ovAlt int) *builder {
-	return &builder{base: base, fixed: fixed, ovPath: ovPath, ovAlt: ovAlt, shape: map[string]string{}, kind: map[string]string{}}
+	return &builder{base: base, fixed: fixed, ovPath: ovPath, ovAlt: ovAlt, shape: map[string]string{}, kind: map[string]string{}, longIdx: -1}
 }
 
 func h32(s string) uint32 {
@@ -161,6 +167,49 @@ var byteLenAlts = []int{0, 1, 32, 1025}
 var rlpByteLenAlts = []int{0, 1, 1, 2, 55, 56, 57, 255, 256, 1025}
 
 var bigIntType = reflect.TypeOf(big.Int{})
+
+// Lengths of slices with non-byte elements.  The short ones are varied around
+// every base like any other leaf.  The long ones straddle the chunk size C in
+// which the binary decoder reads element slices (wire.ReadSliceChunkSize):
+// C-1, C, C+1, 2C-1, 2C, 2C+1, 3C+1.
+const shortSliceLens = 3
+
+func sliceLens(rlp bool) []int {
+	lens := []int{0, 1, 3}
+	if rlp {
+		return lens
+	}
+	c := wire.ReadSliceChunkSize
+	if c < 4 {
+		return lens
+	}
+	return append(lens, c-1, c, c+1, 2*c-1, 2*c, 2*c+1, 3*c+1)
+}
+
+// nilModulus: the period of the nil pattern inside long slices; coprime to the
+// chunk size, so that slots j and j+C always lie in different phases.
+func nilModulus() int {
+	for _, m := range []int{3, 5, 7, 11, 13} {
+		if wire.ReadSliceChunkSize%m != 0 {
+			return m
+		}
+	}
+	return 17
+}
+
+// nilSlot: inside element i of a long slice, the element itself (if it is a
+// pointer or an interface) is nil in phase 1, pointers and interfaces below a
+// (non-nil) element are nil in phase 2; all other slots are set.
+func (b *builder) nilSlot() bool {
+	if b.longDepth == 0 {
+		return false
+	}
+	ph := b.longIdx % nilModulus()
+	if b.longDepth == 1 {
+		return ph == 1
+	}
+	return ph == 2
+}
 
 func rlpBigAlts() []*big.Int {
 	two := big.NewInt(2)
@@ -295,6 +344,11 @@ func (b *builder) build(t reflect.Type, path string, depth int) reflect.Value {
 		idx, forced := b.pick(path, "iface", len(cts)+1, baseIdx)
 		if !forced {
 			idx = baseIdx
+			if b.nilSlot() {
+				idx = 0
+			} else if b.longDepth > 0 && idx == 0 {
+				idx = 1
+			}
 		}
 		if idx == 0 {
 			b.setShape(path, "iface-nil")
@@ -302,6 +356,10 @@ func (b *builder) build(t reflect.Type, path string, depth int) reflect.Value {
 		}
 		b.setShape(path, "iface-set")
 		ct := cts[idx-1]
+		if b.longDepth > 0 {
+			b.longDepth++
+			defer func() { b.longDepth-- }()
+		}
 		if ct.Kind() == reflect.Ptr {
 			p := reflect.New(ct.Elem())
 			p.Elem().Set(b.build(ct.Elem(), path+"!", depth+1))
@@ -348,12 +406,21 @@ func (b *builder) build(t reflect.Type, path string, depth int) reflect.Value {
 		idx, forced := b.pick(path, "ptr", 2, baseIdx)
 		if !forced {
 			idx = baseIdx
+			if b.nilSlot() {
+				idx = 0
+			} else if b.longDepth > 0 {
+				idx = 1
+			}
 		}
 		if idx == 0 {
 			b.setShape(path, "ptr-nil")
 			return v
 		}
 		b.setShape(path, "ptr-set")
+		if b.longDepth > 0 {
+			b.longDepth++
+			defer func() { b.longDepth-- }()
+		}
 		p := reflect.New(t.Elem())
 		p.Elem().Set(b.build(t.Elem(), path+"*", depth+1))
 		v.Set(p)
@@ -384,6 +451,10 @@ func (b *builder) build(t reflect.Type, path string, depth int) reflect.Value {
 			}
 			v.Set(reflect.ValueOf(tm))
 			return v
+		}
+		if b.longDepth > 0 {
+			b.longDepth++
+			defer func() { b.longDepth-- }()
 		}
 		for _, f := range codecFields(t) {
 			if b.rlp && f.Tag.Get("rlp") == "-" {
@@ -457,7 +528,7 @@ func (b *builder) build(t reflect.Type, path string, depth int) reflect.Value {
 			v.Set(s)
 			return v
 		}
-		lens := []int{0, 1, 3}
+		lens := sliceLens(b.rlp)
 		baseIdx := []int{1, 2, 0, 2}[b.base]
 		idx, forced := b.pick(path, "slice-len", len(lens), baseIdx)
 		if !forced {
@@ -465,6 +536,18 @@ func (b *builder) build(t reflect.Type, path string, depth int) reflect.Value {
 		}
 		n := lens[idx]
 		b.setShape(path, "slice-len"+strconv.Itoa(n))
+		if idx >= shortSliceLens && b.longDepth == 0 {
+			// a long slice: distinguishable elements (every leaf depends on the
+			// element's path) with nil slots
+			s := reflect.MakeSlice(t, n, n)
+			for i := 0; i < n; i++ {
+				b.longIdx, b.longDepth = i, 1
+				s.Index(i).Set(b.build(t.Elem(), path+"["+strconv.Itoa(i)+"]", depth+1))
+			}
+			b.longIdx, b.longDepth = -1, 0
+			v.Set(s)
+			return v
+		}
 		if n == 0 {
 			if hp%2 == 0 {
 				return v
@@ -603,6 +686,8 @@ type gridValue struct {
 	Shape    map[string]string // of the overridden leaf only; see full()
 	Kind     map[string]string
 	JSONOnly bool
+	Long     bool   // the varied leaf is a slice of one of the long lengths
+	ElemKind string // for Long: kind of the slice's element type
 	base     int
 }
 
@@ -621,7 +706,7 @@ func (r *rootSpec) make(base int, ovPath string, ovAlt int) (*gridValue, *builde
 	b.rlp = r.RLP
 	holder := reflect.New(r.Type)
 	holder.Elem().Set(b.build(r.Type, "", 0))
-	return &gridValue{
+	g := &gridValue{
 		Desc:     valueDesc{Root: r.Name, Base: baseNames[base], Path: ovPath, Alt: ovAlt},
 		Root:     r,
 		V:        holder.Elem(),
@@ -629,7 +714,14 @@ func (r *rootSpec) make(base int, ovPath string, ovAlt int) (*gridValue, *builde
 		Kind:     b.kind,
 		JSONOnly: b.jsonOnly,
 		base:     base,
-	}, b
+	}
+	if ovPath != "" && b.kind[ovPath] == "slice-len" && ovAlt >= shortSliceLens {
+		if sv := walkTo(g.V, ovPath); sv.IsValid() && sv.Kind() == reflect.Slice {
+			g.Long = true
+			g.ElemKind = sv.Type().Elem().Kind().String()
+		}
+	}
+	return g, b
 }
 
 // iface returns the value as the codec entry points receive it.
@@ -649,9 +741,25 @@ func (r *rootSpec) leaves(base int) []leafRec {
 	return rec
 }
 
+// gridJob names one grid value without building it.
+type gridJob struct {
+	Root *rootSpec
+	Base int
+	Path string
+	Alt  int
+}
+
+func (j gridJob) build() *gridValue {
+	g, _ := j.Root.make(j.Base, j.Path, j.Alt)
+	return g
+}
+
 // grid enumerates the values of one root: the four bases, then around bases A
-// and B every leaf replaced by every alternative (one leaf at a time).
-func (r *rootSpec) grid(each func(*gridValue)) (unsupported []string) {
+// and B every leaf replaced by every alternative (one leaf at a time).  The
+// long-slice alternatives (sliceLens beyond the short ones) are not built here
+// but handed to long, if given, as jobs: they are large, and are built, checked
+// and dropped one at a time.
+func (r *rootSpec) grid(each func(*gridValue), long func(gridJob)) (unsupported []string) {
 	for base := baseA; base <= baseMax; base++ {
 		g, b := r.make(base, "", -1)
 		unsupported = append(unsupported, b.unsupported...)
@@ -661,6 +769,12 @@ func (r *rootSpec) grid(each func(*gridValue)) (unsupported []string) {
 		for _, lf := range r.leaves(base) {
 			for alt := 0; alt < lf.NAlt; alt++ {
 				if alt == lf.Base {
+					continue
+				}
+				if lf.Kind == "slice-len" && alt >= shortSliceLens {
+					if long != nil {
+						long(gridJob{r, base, lf.Path, alt})
+					}
 					continue
 				}
 				g, _ := r.make(base, lf.Path, alt)
